@@ -774,6 +774,16 @@ pub enum X6 {
     B,
 }
 "#,
+    // a user callback that shares its name with a parameter of the generated `_get_action(lex, offset, context)`
+    r#"fn lex<'s>(l: &mut Lexer<'s, X10>) -> usize { l.slice().len() }
+#[derive(Logos)]
+pub enum X10 {
+    #[regex("[a-z]+", lex)]
+    Word(usize),
+    #[token("!")]
+    Bang,
+}
+"#,
     // function pointer with elided (higher-ranked) lifetimes
     r#"fn c_len(s: &str) -> usize { s.len() }
 #[derive(Logos)]
